@@ -159,13 +159,13 @@ func resolveNatives(names []string, imp types.Importer) (syms []*nativeSym, unre
 
 // an expression of the generated code
 type nvExpr struct {
-	typ   types.Type
-	ts    string
-	root  string // source text of a root (parameter, constant)
-	sym   *nativeSym
-	args  []*nvExpr // receiver first
-	needs byte      // 0, 'F' (needs the *dsl.VarFilterContext), 'D' (needs the *dsl.DoContext)
-	depth int
+	typ    types.Type
+	ts     string
+	root   string // source text of a root (parameter, constant)
+	sym    *nativeSym
+	args   []*nvExpr // receiver first
+	needs  byte      // 0, 'F' (needs the *dsl.VarFilterContext), 'D' (needs the *dsl.DoContext)
+	depth  int
 	needsT bool // a root whose text mentions t
 }
 
